@@ -136,6 +136,54 @@ def exec (lineOf : Ctx → Option Nat) (r : Rt) : Action → Rt × Res
   | .lineStep => lineStep lineOf r
   | .leaveScope => leaveScope r
 
+/-! ## Control actions issued at an exact instruction boundary
+
+The executing thread is inside `execute(start)`; right before the `(k+1)`-th instruction of the run a
+controller issues actions. `stop` and `abort` find the VM running with the run flag held: they store the
+exit request and return `ok`. Every executing action finds the flag held: its compare-exchange fails,
+it returns `action_error` and changes nothing. The instruction that was about to execute still executes;
+the loop then sees the request, the run ends with `ok`, all contexts are discarded and the VM is empty. -/
+
+/-- `k` instructions of the script context -/
+def runK : Nat → Ctx → M → Ctx × M × StepRes
+  | 0, c, m => (c, m, .ok)
+  | k + 1, c, m =>
+    if (doOne c m).2.2 ≠ .ok then doOne c m
+    else runK k (doOne c m).1 (doOne c m).2.1
+
+/-- result of a control action issued while another thread executes -/
+def whileRunning : Action → Res
+  | .stop | .abort => .ok
+  | _ => .actionError
+
+/-- does the action sequence contain an accepted stop or abort? -/
+def requestsExit (acts : List Action) : Bool := acts.any (fun a => a == .stop || a == .abort)
+
+/-- `execute(start)` with the controller's actions issued right before instruction `k + 1` -/
+def startInjected (r : Rt) (k : Nat) (acts : List Action) (fuel : Nat := 1000000) : Rt × Res × List Res :=
+  match r.ctx with
+  | none => ((finish r none (begin r.m) .empty).1, (finish r none (begin r.m) .empty).2, [])
+  | some c =>
+    let a := runK k c (begin r.m)
+    if a.2.2 ≠ .ok then
+      -- the run ended (or failed) before the boundary was reached: the controller never got its turn;
+      -- a finished context is erased by the scheduler
+      ((finish r (if a.2.2 == .empty then none else some a.1) a.2.1 a.2.2).1, resOf a.2.2, [])
+    else
+      let o := doOne a.1 a.2.1
+      if o.2.2 == .empty then ((finish r none o.2.1 .empty).1, .empty, [])
+      else
+        let results := acts.map whileRunning
+        if o.2.2 ≠ .ok then
+          -- the late instruction failed: the result is the error, an accepted request still empties the VM
+          ((finish r (some o.1) { o.2.1 with exitReq := o.2.1.exitReq || requestsExit acts } o.2.2).1, resOf o.2.2, results)
+        else if requestsExit acts then
+          -- one late instruction has executed; the loop head sees the request
+          ({ ctx := none, m := { o.2.1 with exitReq := true }, state := .empty }, .ok, results)
+        else
+          let s := VM.sched 150 fuel [o.1] 0 o.2.1 .ok
+          ({ ctx := s.rt.ctxs.head?, m := s.rt.m, state := s.state }, resOf s.res, results)
+
 /-! ## The concurrent layer -/
 
 namespace Conc
